@@ -138,7 +138,7 @@ def main():
             "guard": "--cfg flacenc_verif (plus --cfg flacenc_verif_loom for the loom build)",
             "enable": "RUSTFLAGS=\"--cfg flacenc_verif --cfg flacenc_verif_loom -C target-cpu=native\" cargo build (done by ./vcheck for the parx engine)",
             "baseline_off_cmd": "cd /repo && cargo nextest run --workspace --no-fail-fast --offline || cargo test --workspace --no-fail-fast --offline",
-            "source_commits": ["e691247", "f65cc55", "daeba2a"],
+            "source_commits": ["e691247", "f65cc55", "daeba2a", "82b277e"],
             "add_only": True,
         },
         "engines": [
